@@ -958,6 +958,26 @@ func checkC14Relation(w *World, c *Check, eq *ssa.Function, clos []*ssa.Function
 			c.bad("C14.components", comp, w.FuncPos(eq), "URL."+comp+" of the two operands is never compared: ids that differ only there are judged equal")
 		}
 	}
+	// a component the closure looks at to ADMIT an IRI to the component-wise comparison (a validity predicate that is
+	// content with URL.Opaque in place of a host) must be among the components that are compared: otherwise all the
+	// IRIs it admits that differ only there — urn:uuid:A and urn:uuid:B have neither host nor path — are equal
+	for _, f := range clos {
+		for _, b := range f.Blocks {
+			for _, in := range b.Instrs {
+				fa, ok := in.(*ssa.FieldAddr)
+				if !ok || !isURL(fa.X.Type()) {
+					continue
+				}
+				fname := fieldNameOf(fa.X.Type(), fa.Field)
+				if fname != "Opaque" && fname != "User" && fname != "RawPath" {
+					continue
+				}
+				if !compared[fname] {
+					c.bad("C14.components", funcName(f)+":reads:URL."+fname, w.InstrPos(fa), fmt.Sprintf("%s reads URL.%s of an operand, but the two operands' %s never meet in a comparison: IRIs admitted on the strength of that component and differing only in it compare equal", funcName(f), fname, fname))
+				}
+			}
+		}
+	}
 	nq := 0
 	for k := range compared {
 		if strings.HasPrefix(k, "Query()@") {
